@@ -1,6 +1,7 @@
 #!/bin/bash
 # usage: after_both.sh "<first evals, ;-separated specs>" "<re-evals, ;-separated specs>"  - waits until the evaluation worktree
 # is idle, runs the first evaluations (seedeval2) one after the other, then the re-evaluations
+FIRST="$1"; SECOND="$2"
 while true; do
   if ! pgrep -f "lib/seedeval2" > /dev/null && ! pgrep -f "/var/tmp/evq.sh" > /dev/null && ! pgrep -f "/var/tmp/reeval.sh" > /dev/null; then
     sleep 15
@@ -9,13 +10,13 @@ while true; do
   sleep 10
 done
 cd /verif
-IFS=';' read -ra A <<< "$1"
+IFS=';' read -ra A <<< "$FIRST"
 for spec in "${A[@]}"; do
   [ -z "$spec" ] && continue
   set -- $spec; name=$1; wt=$2; shift 2
   bash lib/seedeval2.sh $name $wt "$*" > /var/tmp/ev-$wt.log 2>&1
 done
-IFS=';' read -ra B <<< "$2"
+IFS=';' read -ra B <<< "$SECOND"
 for spec in "${B[@]}"; do
   [ -z "$spec" ] && continue
   set -- $spec; name=$1; shift
